@@ -4,26 +4,50 @@
 
 package processor
 
+import (
+	"sync"
+
+	chf_context "github.com/free5gc/chf/internal/context"
+)
+
 func verif_forall[T any](f func(T) bool) bool { return true }
+
+// verif_held: the mutex is held by the current request (interpreted by govc)
+func verif_held(mu *sync.Mutex) bool { return true }
+
+var _ = chf_context.GetSelf
+
+// ---- CDR life cycle (C02, C11) ------------------------------------------------------------
 
 //@ func (*Processor).CloseCDR [C02 C11]
 //@   requires record != nil && record.ChargingFunctionRecord != nil
 //@   ensures result == nil && (partial ==> record.ChargingFunctionRecord.CauseForRecClosing.Value == 1) && (!partial ==> record.ChargingFunctionRecord.CauseForRecClosing.Value == 0)
+//@   modifies field(record.ChargingFunctionRecord, CauseForRecClosing)
 
+// UpdateCDR: the reported usage is appended once, in order, after what the record already holds.
 //@ func (*Processor).UpdateCDR [C02 C11]
 //@   requires record == nil || record.ChargingFunctionRecord != nil
+//@   ensures (record == nil) == (result != nil)
+//@   ensures record != nil && len(chargingData.MultipleUnitUsage) != 0 ==> len(record.ChargingFunctionRecord.ListOfMultipleUnitUsage) == old(len(record.ChargingFunctionRecord.ListOfMultipleUnitUsage))+len(chargingData.MultipleUnitUsage)
+//@   ensures record != nil && len(chargingData.MultipleUnitUsage) == 0 ==> len(record.ChargingFunctionRecord.ListOfMultipleUnitUsage) == old(len(record.ChargingFunctionRecord.ListOfMultipleUnitUsage))
+//@   ensures record != nil ==> forall i int :: 0 <= i && i < old(len(record.ChargingFunctionRecord.ListOfMultipleUnitUsage)) ==> record.ChargingFunctionRecord.ListOfMultipleUnitUsage[i].RatingGroup.Value == old(record.ChargingFunctionRecord.ListOfMultipleUnitUsage[i].RatingGroup.Value) && len(record.ChargingFunctionRecord.ListOfMultipleUnitUsage[i].UsedUnitContainers) == old(len(record.ChargingFunctionRecord.ListOfMultipleUnitUsage[i].UsedUnitContainers))
+//@   ensures record != nil ==> forall j int :: 0 <= j && j < len(chargingData.MultipleUnitUsage) ==> record.ChargingFunctionRecord.ListOfMultipleUnitUsage[old(len(record.ChargingFunctionRecord.ListOfMultipleUnitUsage))+j].RatingGroup.Value == int64(chargingData.MultipleUnitUsage[j].RatingGroup) && len(record.ChargingFunctionRecord.ListOfMultipleUnitUsage[old(len(record.ChargingFunctionRecord.ListOfMultipleUnitUsage))+j].UsedUnitContainers) == len(chargingData.MultipleUnitUsage[j].UsedUnitContainer)
+//@   modifies field(record.ChargingFunctionRecord, ListOfMultipleUnitUsage), field(record.ChargingFunctionRecord, Triggers)
+//@   modifies elems(record.ChargingFunctionRecord.ListOfMultipleUnitUsage[len(record.ChargingFunctionRecord.ListOfMultipleUnitUsage):cap(record.ChargingFunctionRecord.ListOfMultipleUnitUsage)])
+//@   modifies elems(record.ChargingFunctionRecord.Triggers[len(record.ChargingFunctionRecord.Triggers):cap(record.ChargingFunctionRecord.Triggers)])
+//@   linear chfCdr.ListOfMultipleUnitUsage, chfCdr.Triggers
 
+// OpenCDR (non partial): a fresh record carrying the identity given at creation; (partial): the
+// open record of the session gets the next partial sequence number, or an error for an unknown session.
 //@ func (*Processor).OpenCDR [C02 C11]
-//@   requires ue != nil
-
-//@ func dumpCdrFile [C03 C11]
-
-//@ func (*Processor).ChargingDataCreate [C10 C11 C12]
-
-//@ func (*Processor).ChargingDataUpdate [C10 C11 C12]
-
-//@ func (*Processor).ChargingDataRelease [C11 C12]
-
-//@ func sessionChargingReservation [C01 C06 C11]
-
-//@ func (*Processor).NotifyRecharge [C11 C12]
+//@   requires ue != nil && !verif_held(&chf_context.GetSelf().Mutex)
+//@   ensures !partialRecord && result1 == nil ==> result0 != nil && result0.ChargingFunctionRecord != nil && result0.Present == 1
+//@   ensures !partialRecord ==> (result1 != nil) == (chargingData.NfConsumerIdentification == nil)
+//@   ensures !partialRecord && result1 == nil ==> result0.ChargingFunctionRecord.ChargingID != nil && result0.ChargingFunctionRecord.ChargingID.Value == int64(chargingData.ChargingId)
+//@   ensures !partialRecord && result1 == nil && sessionId != "" ==> result0.ChargingFunctionRecord.ChargingSessionIdentifier != nil && len(result0.ChargingFunctionRecord.ChargingSessionIdentifier.Value) == len(sessionId)
+//@   ensures !partialRecord && result1 == nil && sessionId != "" ==> forall k int :: 0 <= k && k < len(sessionId) ==> result0.ChargingFunctionRecord.ChargingSessionIdentifier.Value[k] == sessionId[k]
+//@   ensures !partialRecord && result1 == nil && chargingData.NfConsumerIdentification.NFName != "" ==> result0.ChargingFunctionRecord.NFunctionConsumerInformation.NetworkFunctionName != nil && string(result0.ChargingFunctionRecord.NFunctionConsumerInformation.NetworkFunctionName.Value) == chargingData.NfConsumerIdentification.NFName
+//@   ensures !partialRecord && result1 == nil ==> len(result0.ChargingFunctionRecord.ListOfMultipleUnitUsage) == 0
+//@   ensures partialRecord ==> (result1 == nil) == (ue.Cdr[sessionId] != nil && ue.Cdr[sessionId].ChargingFunctionRecord != nil)
+//@   ensures partialRecord && result1 == nil ==> result0 == ue.Cdr[sessionId] && result0.ChargingFunctionRecord.RecordSequenceNumber != nil
+//@   modifies field(chf_context.GetSelf(), LocalRecordSequenceNumber), field(ue.Cdr[sessionId].ChargingFunctionRecord, RecordSequenceNumber)
